@@ -262,8 +262,15 @@ class Extractor:
             return a ** b
         raise AlgError("operator %s" % type(op).__name__)
 
+    def pre_call(self, node, fname, env):
+        """hook before argument evaluation; return NotImplemented to continue"""
+        return NotImplemented
+
     def call(self, node, env):
         fname = _dotted(node.func)
+        pre = self.pre_call(node, fname, env)
+        if pre is not NotImplemented:
+            return pre
         # closures bound in env
         target = None
         if fname is not None and fname in env:
